@@ -1522,6 +1522,7 @@ class Qube(object):
                              % (key, type(self).__name__))
 
         # Prevent recursion, convert to floating point
+        given = deriv
         deriv = deriv.wod.as_float()
 
         # Match readonly of parent if necessary
@@ -1531,6 +1532,12 @@ class Qube(object):
         # Save in the derivative dictionary and as an attribute
         if deriv._shape_ != self._shape_:
             deriv = deriv.broadcast_to(self._shape_)
+
+        # If this is still the object given (or its cached "wod"), hold a
+        # separate shallow copy, so that a later in-place change to that object
+        # (such as inserting a derivative into it) cannot reach this object
+        if deriv is given or deriv is given._cache_.get('wod', None):
+            deriv = deriv.clone(recursive=False)
 
         self._derivs_[key] = deriv
         setattr(self, 'd_d' + key, deriv)
